@@ -153,6 +153,10 @@ def gen_plan(prop, seed, index, tier="quick"):
             faults = [f for f in faults if not (f["on"]["request"] == "Metadata"
                                                 and isinstance(f["do"], dict)
                                                 and "reply_error" in f["do"])]
+    if prop == "C03" and r.random() < 0.15:
+        # a fetch response corrupted on the way, once (CRC checking on)
+        faults.append({"on": {"request": "Fetch", "nth": r.randint(1, 8)}, "do": "corrupt_once"})
+        kwargs["check_crcs"] = True
     return {"format": 1, "prop": prop, "engine": "consumer", "seed": scenario.subseed(seed, prop, index),
             "index": index, "cluster": cluster, "logs": logs, "appends": appends,
             "log_start": log_start,
@@ -434,6 +438,11 @@ def execute(plan):
             # position was out of range: the application must seek; model follows
             for tp, off in getattr(exc, "args", [{}])[0].items() if exc.args and isinstance(exc.args[0], dict) else []:
                 pass
+            return True
+        if isinstance(exc, Errors.CorruptRecordException) and world.fault_counts.get("corrupt_once"):
+            # a response was corrupted on the way (injected): the error is reported, nothing
+            # may be skipped or repeated because of it (the reference reader does not move)
+            world.probe("corrupt_record_raised")
             return True
         return False
 
